@@ -324,6 +324,76 @@ func runC14(c *core.Ctx) core.Meta {
 		st4.Ob(false)
 		c.ReportAt("R14.4", u.Target.Fn(), u.Target.Instr.Pos(), "passBarrier:guard", "the barrier is released on a path that did not find every wavefront of the group at the barrier")
 	}
+	// R14.9 arrival at a barrier does not need room in the barrier buffer
+	st9 := c.Rule("R14.9", "a wavefront that executes s_barrier is recorded as arrived and, if it is the last of its group, releases the group whether or not the barrier buffer has room: in evalSBarrier the store of WfAtBarrier and the call that releases the group (passBarrier) are reachable on the paths on which the capacity test len(barrierBuffer) < barrierBufferSize fails; only parking the wavefront in the buffer may depend on that test. Slots are freed only by releases, so a full buffer of incomplete groups that turns arrivals away never drains", 2)
+	if fn := c.MustFunc("R14.9", cuPkg, "SchedulerImpl.evalSBarrier"); fn != nil {
+		c.MarkAnalysed(fn)
+		g := core.BuildGraph(fn, 2, func(cal *ssa.Function) bool { return cal.Pkg == fn.Pkg && cal.Name() != "passBarrier" })
+		isLenBuf := func(v ssa.Value) bool {
+			call, ok := v.(*ssa.Call)
+			if !ok {
+				return false
+			}
+			bi, ok := call.Call.Value.(*ssa.Builtin)
+			if !ok || bi.Name() != "len" {
+				return false
+			}
+			f := core.LoadedField(call.Call.Args[0])
+			return f != nil && f.Name() == "barrierBuffer"
+		}
+		isSize := func(v ssa.Value) bool {
+			f := core.LoadedField(v)
+			return f != nil && f.Name() == "barrierBufferSize"
+		}
+		hasRoom := CmpCut(func(_ *core.Node, op token.Token, x, y ssa.Value) int {
+			if !isLenBuf(x) || !isSize(y) {
+				return 0
+			}
+			switch op {
+			case token.LSS, token.NEQ:
+				return 1
+			case token.GEQ, token.EQL:
+				return -1
+			}
+			return 0
+		})
+		reach, okW := g.Reach([]core.State{{N: g.Entry}}, core.WalkOpts{CutEdge: hasRoom})
+		atBarrierV, okAB := states["WfAtBarrier"]
+		var release, arrive bool
+		nRel, nArr := 0, 0
+		for _, n := range g.Nodes {
+			if cc := core.CallOf(n.Instr); cc != nil && cc.StaticCallee() != nil && cc.StaticCallee().Name() == "passBarrier" {
+				nRel++
+				if reach[n] {
+					release = true
+				}
+			}
+			if okAB && isStateStore(n.Instr, atBarrierV) {
+				nArr++
+				if reach[n] {
+					arrive = true
+				}
+			}
+		}
+		st9.Instances += 2
+		st9.Ob(okW && (release || nRel == 0) && nRel > 0)
+		st9.Ob(okW && (arrive || nArr == 0) && nArr > 0)
+		st9.Sample("evalSBarrier: with the barrier buffer full the arrival is still recorded (%v) and the last arrival still releases its group (%v)", arrive, release)
+		switch {
+		case !okW:
+			c.Undecided("R14.9", fn, fn.Pos(), "barrier:full-buffer", "state cap reached")
+		case nRel == 0 || nArr == 0:
+			c.Report(core.Finding{Rule: "R14.9", Kind: "anchor", Pkg: cuPkg, Func: "SchedulerImpl.evalSBarrier", Detail: "barrier:anchors", Msg: "no passBarrier call or no WfAtBarrier store found in evalSBarrier"})
+		default:
+			if !release {
+				c.ReportAt("R14.9", fn, fn.Pos(), "barrier:release-needs-room", "with the barrier buffer full evalSBarrier cannot reach passBarrier: the last wavefront of a group is turned away although its arrival would release the group and free slots. With 16 wavefronts of incomplete groups parked, no group of the compute unit passes its barrier again")
+			}
+			if !arrive {
+				c.ReportAt("R14.9", fn, fn.Pos(), "barrier:arrival-needs-room", "with the barrier buffer full evalSBarrier does not record the wavefront as arrived (WfAtBarrier): the all-arrived tests of its group never succeed")
+			}
+		}
+	}
+
 	// R14.8 a wavefront that ends leaves the pool alone
 	st8 := c.Rule("R14.8", "removing a finished wavefront from a wavefront pool (or any list of the compute unit) takes out exactly that wavefront: every append / in-place copy of the compute-unit package that joins two windows of one slice is append(s[:i], s[i+1:]...) or copy(s[i:], s[i+1:]) followed by a cut by one. A shifted window removes a live wavefront with the finished one: it is never scheduled again, its work-group never completes and the wavefronts of its group wait at the next barrier for ever", 1)
 	checkSliceRemovalIdiom(c, st8, "R14.8", pcu, "a live wavefront leaves the pool with the finished one and is never scheduled again")
